@@ -15,7 +15,7 @@ CLAIMS = {
                 "BurstForwarder.forward_msg is reached exactly under {peer is not sender, peer.running, peer Rx freq(FN) == "
                 "sender Tx freq(FN)}, once per peer, over the full list; frequency resolvers return the fixed value iff no "
                 "hopping else element 0/1 of resolve(fn); SETFH builds (Rx,Tx) pairs in documented order; non-running "
-                "transceivers do not transmit; every transceiver ticks; only the forwarder delivers.",
+                "transceivers do not transmit; every transceiver ticks; only the forwarder delivers. The list object handed to the forwarder stays the registration list: no owner attribute on the path to it is rebound by code that can run after the hand-over (R6); SETFH pairing is also folded for non-monotone witness channel lists.",
         "note": TB + "Not decided: correctness of HoppingParams.resolve (C07), what the recipient does after delivery (C10, C18).",
     },
     "C03": {
@@ -24,7 +24,7 @@ CLAIMS = {
                 "_tx_queue_lock (read and replace in one critical section); only append/clear/clck_tick write it; an arrival is "
                 "enqueued exactly once iff parsed, version-matched and running; the tick classifier sends each queued message to "
                 "exactly one of emit (FN equal) / stale (modular past) / wait (modular future) under every ordering incl. the "
-                "hyperframe wrap; each due burst is forwarded once, each stale one logged; power-off clears every selected queue.",
+                "hyperframe wrap; each due burst is forwarded once, each stale one logged; power-off clears every selected queue. Only the power-off handler may discard the queue (who-may-call over tx_queue_clear).",
         "note": TB + "Not decided: exactly-once over all histories as such (induction over these premises is argued in DESIGN.md), fairness of the clock thread.",
     },
     "C13": {
@@ -33,7 +33,7 @@ CLAIMS = {
                 "field values incl. None) accepted by validate() equals the protocol ranges of spec/ranges.json exactly (both "
                 "inclusions, per field and as a whole); every reachable rejection raises ValueError and cannot raise another class "
                 "while building its message or comparing a None field; validate() dominates every buffer write of gen_msg; send() is "
-                "unreachable from send_msg's rejection handler and nothing sends on a data interface bypassing send_msg.",
+                "unreachable from send_msg's rejection handler and nothing sends on a data interface bypassing send_msg. Validation conditions that call a pure repository function on one integer field are folded on critical points (purity of the callee checked).",
         "note": TB + "Fields are assumed to hold ints or None (the property's quantifier). Validity of burst *contents* is not constrained by the statement.",
     },
     "C12": {
@@ -43,7 +43,7 @@ CLAIMS = {
                 "clock-link and generator start/stop actions equal the specified decision table over all 16 truth assignments, link "
                 "update first; POWERON succeeds iff not running and ready (ready = tuned or hopping), POWEROFF always; only parse_cmd "
                 "issues power events; interface ports are base+2*idx+{102,2}/{101,1} and base+{100,0} in UDPLink's (remote, bind) "
-                "order; children get no clock and are linked to their parent; MS does not manage children.",
+                "order; children get no clock and are linked to their parent; MS does not manage children. Application.trx_def (regular expression included) is folded for witness --trx definitions with 0..3-digit child indexes (R7).",
         "note": TB + "Not decided: the iff between `running` and the whole command history as such (follows from the single-writer rule and the decision tables by induction, argued not checked); trxcon's socket plan is cross-checked where cfront is available.",
     },
     "C18": {
@@ -53,7 +53,7 @@ CLAIMS = {
                 "FAKE_DROP stores state only when amount >= 0 (and period > 0), else returns -1 with no store; the 64-row decision "
                 "table of FakeTRX.handle_data_msg equals the specified one (mute => NOPE without consuming the counter; NOPE => nothing on "
                 "v0, exactly one burst-less indication with the noise constants on v1; otherwise exactly one forward); a muted sender "
-                "strips the burst before any copy and trans() turns that into NOPE; the noise constants lie inside the validated ranges.",
+                "strips the burst before any copy and trans() turns that into NOPE; the noise constants lie inside the validated ranges. FAKE_DROP is decided by folding the whole command handler (helpers and verify_cmd from source) for 35 boundary witnesses of both forms; nothing but the power-off handler discards queued bursts (R5).",
         "note": TB + "Not decided: 'exactly the next n matching bursts' as a count over a stream (follows by induction from the one-decrement-per-suppressed-burst rule).",
     },
     "C05": {
@@ -62,7 +62,7 @@ CLAIMS = {
                 "address of the same recvfrom, with 'RSP ' + verb, status inserted at index 1, arguments, optional results + NUL, always sent; both "
                 "dispatchers return a status on every path, unknown verbs 0; the accepted (verb, argc) table equals spec/trxc.json and accepts every "
                 "command trxcon emits; handlers read only arguments their arity guarantees; SETFORMAT/MEASURE/tuning decision tables; "
-                "set_hdr_ver/pick_hdr_ver folded for all 16 versions; the control receive size covers trxcon's TRXC_BUF_SIZE.",
+                "set_hdr_ver/pick_hdr_ver folded for all 16 versions; the control receive size covers trxcon's TRXC_BUF_SIZE. The whole receive path (handle_rx .. sendto) is folded for ten scenario datagrams / handler results: number of replies, exact reply text, destination (shape rules on send_response are only a fallback when the code does not fold); a frame number that may be None reaches the hopping resolver only for non-hopping transceivers (R7, two decision tables).",
         "note": TB + "Not decided: status/side effects as a function of the whole command history beyond the per-branch guard rules (POWERON/POWEROFF tables are under C12).",
     },
     "C14": {
@@ -72,7 +72,7 @@ CLAIMS = {
                 "data (decode, int(), subscripts, unpack, %, randint, sleep) or by a reachable raise can leave recv_data_msg, handle_rx or the "
                 "capture reader; integers stored from commands into attributes used by partial operations on other paths (clock thread) are "
                 "range-checked where stored or guarded where used; in trxcon a strchr() result is never offset/dereferenced without a NULL "
-                "test and receive-buffer stores/offsets stay in bounds.",
+                "test and receive-buffer stores/offsets stay in bounds. Results of strchr-like calls used on the spot are flagged; raises guarded by a type test that the call chain's static argument type falsifies, or by a condition interval arithmetic over validated attribute ranges decides false, are unreachable; the header-description helpers used in the rejection log lines are total on messages with None fields (R9).",
         "note": TB + "Not decided: correctness of later behaviour beyond 'no exception/UB path and guarded state stores'; OS errors; resource exhaustion. Known finding D13 (FAKE_TRXC_DELAY overflow) is listed in known_findings.json.",
     },
     "C09": {
@@ -92,7 +92,7 @@ CLAIMS = {
                 "hdr[1:3], HDR_LENGTH = 3, tags distinct, largest message fits 16 bits; a record is returned only if header and body "
                 "were read completely (short reads and EOF give None, unparsable bodies False, never an exception); skip advances idx "
                 "times by header + stored length with a relative seek from a rewound file; parse_all's loop ends on EOF, skips "
-                "unparsable records, stops at count; append writes exactly dump_msg in list order.",
+                "unparsable records, stops at count; append writes exactly dump_msg in list order. R1 is decided by folding writer and reader on 12 witness pairs (both classes, payloads of 0..751 octets): record = header + payload as produced by the plain gen_msg(), header read back as (same class, same length), foreign classes refused, unknown tags False.",
         "note": TB + "Not decided: field equality of what is returned (C01's round trip); behaviour on files containing unparsable records beyond skip/continue.",
     },
     "C01": {
@@ -102,7 +102,7 @@ CLAIMS = {
                 "TN in bits 2..0 of octet 0 without overlap, burst at HDR_LEN on both sides); every validated value fits its wire width; the four "
                 "256-entry soft-bit tables are mutually inverse on -127..127 and map bits to full-confidence soft bits of the matching sign; "
                 "parse_mts(gen_mts(x)) == x for all 112 valid (modulation, TSC set, TSC) combinations and NOPE, all 256 octets parse; "
-                "burst-length and legacy-padding rules give back the sent length for every encodable length.",
+                "burst-length and legacy-padding rules give back the sent length for every encodable length. The datagram returned by gen_msg() is storage created during the call (R6: not a class/instance/module-level buffer).",
         "note": TB + "Not decided: equality of every field for every concrete message (the runtime round trip itself); fields not on the wire (mod_type on v0).",
     },
     "C04": {
@@ -112,17 +112,17 @@ CLAIMS = {
                 "else is written, MTS = code|set in bits 6..3 + TSC, NOPE bit 7, soft bits as 127 - s; trxcon's receive path reads tn/fn/rssi/toa256/"
                 "burst from the same octets, only after read_len >= 8 and version 0, accepts exactly {148, 444} (+2 legacy octets stripped), "
                 "converts soft bits identically to the toolkit's table for all 256 octets, delivers only FN < 2715648; the transmit path "
-                "stores tn/fn/pwr/bits at the documented offsets with length 6 + burst; each side's receive buffer holds the other's largest datagram.",
+                "stores tn/fn/pwr/bits at the documented offsets with length 6 + burst; each side's receive buffer holds the other's largest datagram. trxcon's length classifier is folded with the receive capacity actually passed to read(): every legal datagram length must arrive untruncated and be accepted.",
         "note": TB + "Not decided: numeric equality of decoded values for every message. osmo_load32be/osmo_store32be/memcpy are modelled.",
     },
     "C10": {
         "technique": "forward substitution + linear normal forms of the stored metadata, decision tables of the randomised properties, constant folding of the training-sequence table and slice offsets, length-tracking interpretation of the burst generators",
         "text": "Decides the formulas and positions for all settings: trans() copies fn/tn, converts bits through ubit2sbit and takes the recipient's "
-                "version; bursts go to L1 with legacy padding; RSSI = sender power base - sender attenuation - burst attenuation - 110 (or the "
+                "version; bursts go to L1 with legacy padding; RSSI = sender power base - sender attenuation - burst attenuation - path loss (or the "
                 "FAKE_RSSI window), ToA256 = window value - 256 x sender TA, C/I from its window, each window = base or "
                 "randint(base - thr, base + thr); on v1 modulation = pick_by_bl(len(sent burst)), TSC/TSC set from TrainingSeqGMSK.pick "
                 "for GMSK else 0; pick() compares the slices [61:87], [8:49], [42:106] with sequences of the matching burst type; the "
-                "generators place the training sequence at exactly those offsets in 148-bit bursts; the sequence table equals the reference copy.",
+                "generators place the training sequence at exactly those offsets in 148-bit bursts; the sequence table equals the reference copy. pick() is additionally folded for 30 witness bursts against the reference (first member in definition order whose sequence equals the slice at the position of its burst type); the path-loss term is a constant or a constructor-only attribute of the recipient.",
         "note": TB + "Not decided: numeric values for concrete configurations; randomised values beyond their window bounds; the training-sequence reference is the tree's own content for entries not cross-read against TS 45.002 (detects change).",
     },
 }
